@@ -41,7 +41,7 @@ def generate(seed: int, tier: str) -> dict:
     st = Streams(seed)
     wr = st["world"]
     profile = weighted(wr, [("acyclic", 7), ("spiral", 3)])
-    world = gen_world(wr, discipline=profile, n_vars=wr.randint(3, 8 if tier == "quick" else 12), max_depth=2, wide=wide_knob(wr, tier, 0.15))
+    world = gen_world(wr, discipline=profile, n_vars=wr.randint(3, 8 if tier == "quick" else 12), max_depth=2, wide=wide_knob(wr, tier, 0.15, cap=4100))
     ir = st["inputs"]
     situation = gen_situation(ir, world, max_persons=4)
     inputs = gen_inputs(ir, world, p=0.45)
